@@ -68,6 +68,7 @@ type reuseCase struct {
 	typ, rot, ctor int
 	steps          []int // values decoded into the object after construction
 	useBetween     bool  // use the object after every step (true) or only at the end (false)
+	valueCopy      bool  // the steps are applied to a VALUE COPY (*obj) of the constructed object; the original must stay A
 }
 
 func (rc reuseCase) String() string {
@@ -78,6 +79,9 @@ func (rc reuseCase) String() string {
 	u := "observed after every step"
 	if !rc.useBetween {
 		u = "observed only at the end"
+	}
+	if rc.valueCopy {
+		u += "; steps applied to a value copy of the object, the original is observed at the end"
 	}
 	return fmt.Sprintf("%s: %s; %s (%s; key rotation %d)", reuseTypeName[rc.typ], ctorName[rc.ctor], strings.Join(s, "; "), u, rc.rot)
 }
@@ -106,9 +110,12 @@ func (e *env) reuseChecks() {
 			for ctor := 0; ctor < nCtors; ctor++ {
 				for s1 := 0; s1 < nReuseVals; s1++ {
 					for _, ub := range []bool{true, false} {
-						cases = append(cases, reuseCase{typ, rot, ctor, []int{s1}, ub})
+						cases = append(cases, reuseCase{typ, rot, ctor, []int{s1}, ub, false})
+						if ub {
+							cases = append(cases, reuseCase{typ, rot, ctor, []int{s1}, ub, true})
+						}
 						for s2 := 0; s2 < nReuseVals; s2++ {
-							cases = append(cases, reuseCase{typ, rot, ctor, []int{s1, s2}, ub})
+							cases = append(cases, reuseCase{typ, rot, ctor, []int{s1, s2}, ub, false})
 						}
 					}
 				}
@@ -418,6 +425,34 @@ func (e *env) runReuse(w *mc.W, rc reuseCase, mats []*material) {
 	if rc.useBetween {
 		observe(state, "construction")
 	}
+	// theme T3: copy the (used) object by value and re-set the copy; the original must be unaffected
+	var restore func()
+	if rc.valueCopy {
+		switch rc.typ {
+		case ruSecretKey:
+			orig, cp := sk, *sk
+			sk, restore = &cp, func() { sk = orig }
+		case ruKeyPair:
+			orig, cp := kp, *kp
+			kp, restore = &cp, func() { kp = orig }
+		case ruPublicKey:
+			orig, cp := pk, *pk
+			pk, restore = &cp, func() { pk = orig }
+		case ruSignature:
+			orig, cp := sig, *sig
+			sig, restore = &cp, func() { sig = orig }
+		case ruMiniSecretKey:
+			orig, cp := msk, *msk
+			msk, restore = &cp, func() { msk = orig }
+		}
+		observe(state, "value copy")
+	}
+	defer func() {
+		if restore != nil {
+			restore()
+			observe(valA, "the steps performed on a value copy (original object)")
+		}
+	}()
 	for si, v := range rc.steps {
 		b, ok := reuseEncoding(rc.typ, v, m)
 		switch rc.typ {
